@@ -319,7 +319,16 @@ OkOpts(kd, o) ==
   /\ (o.lazy = "true" /\ o.joiner = "none" => (kd.spawn /\ ~kd.async))       \* closures need somebody to call them
   /\ (kd.spawn /\ ~kd.async => o.joiner # "lazy")
   /\ (kd.spawn /\ kd.async => o.lazy # "true")                              \* tokio::spawn needs a future
+\* lazy_branches(false) with threads: every step has at least two active branches and ends in the job its thread runs
+StepC16j(b, k) == <<Item(IdOf(b, k, 1), "and_then", IF k = 1 THEN "block" ELSE "call", <<>>), Item(IdOf(b, k, 2), "job", "closure", <<>>)>>
+FamC16j(dummy) ==
+  UNION {{Run([P EXCEPT !.opts = [joiner |-> "none", lazy |-> "false", transpose |-> "default", path |-> "default"]], pl, {}) :
+            pl \in {<<>>} \cup {<<F(x)>> : x \in ItemIds(P, {"and_then"})}} :
+         P \in {Build(Kind(FALSE, t, TRUE), "res", pr, StepC16j, NoName, ExprInit, IF h = "dflt" THEN DefaultHandler(Kind(FALSE, t, TRUE)) ELSE "none") :
+                  t \in BOOLEAN, h \in {"none", "dflt"},
+                  pr \in {<<1, 1>>, <<2, 2>>, <<2, 2, 1>>, <<1, 2, 2>>}}}
 FamC16(dummy) ==
+  FamC16j(0) \cup
   UNION {{Run([P EXCEPT !.opts = o], pl, {}) : pl \in {<<>>} \cup {<<F(x)>> : x \in ItemIds(P, {"and_then"})},
                                                 o \in {q \in OptsC16(P.kind) : OkOpts(P.kind, q)}} :
          P \in {Build(kd, "res", pr, StepC16, NoName, ExprInit, "none") : kd \in Kinds8,
@@ -336,10 +345,14 @@ PanicPlans(P) ==
   \cup {<<Pn("c", x)>> : x \in {IdOf(b, k, 1) : b \in BrSet(P), k \in 1 .. 3} \cap AllItemIds(P)}
   \cup {<<Pn("hx", 0)>>, <<Pn("hc", 0)>>}
   \cup (IF P.kind.async THEN {<<Pn("hf", 0)>>} ELSE {})
+JoinerOpts == [joiner |-> "eager", lazy |-> "default", transpose |-> "default", path |-> "default"]
 FamC18(dummy) ==
   UNION {{Run(P, pl, IF P.kind.spawn /\ ~P.kind.async THEN {IdOf(b, 0, 1) : b \in BrSet(P)} ELSE {}) : pl \in PanicPlans(P)} :
          P \in {[Build(kd, "res", pr, StepC18, NoName, ExprInit, IF kd.try THEN "and_then" ELSE "then") EXCEPT !.hform = "call"] :
-                  kd \in Kinds8, pr \in IF Tier = "quick" THEN {<<2>>, <<1, 2>>, <<2, 1, 2>>} ELSE Profiles(3, 2) \cup {<<3, 1, 2>>}}}
+                  kd \in Kinds8, pr \in IF Tier = "quick" THEN {<<2>>, <<1, 2>>, <<2, 1, 2>>} ELSE Profiles(3, 2) \cup {<<3, 1, 2>>}}
+               \* the same with a custom joiner between the branches and the macro
+               \cup {[Build(kd, "res", pr, StepC18, NoName, ExprInit, "none") EXCEPT !.opts = JoinerOpts] :
+                        kd \in Kinds8, pr \in IF Tier = "quick" THEN {<<1, 2>>, <<2, 2>>} ELSE {<<1, 2>>, <<2, 2>>, <<2, 1, 2>>}}}
 
 \* ---- C17: two-digit branch / step / position indices; block operands at every position
 IdBig(b, k, j) == 10000 * (b + 1) + 100 * k + j
